@@ -11,7 +11,8 @@ Record rcase := mkR {
   r_pre : list (path * node);         (* tree before the interrupted build *)
   r_mid : list (path * node);         (* tree right before the (re-)run (= after the crash) *)
   r_rec : list (path * node);         (* tree after the (re-)run *)
-  r_oracle : list (path * node)       (* tree the same project gives without the interruption / from an empty directory *)
+  r_oracle : list (path * node);      (* tree the same project gives without the interruption / from an empty directory *)
+  r_prev : list string                (* namespaces an EARLIER successful build of the history overrode / linked and this one does not *)
 }.
 
 Definition file_in (l : list (path * node)) (p : path) : option node :=
@@ -27,14 +28,39 @@ Definition same_nodes (a b : list (path * node)) : bool :=
   forallb (fun e => onode_eqb (assoc_path (fst e) b) (Some (snd e))) a &&
   forallb (fun e => onode_eqb (assoc_path (fst e) a) (Some (snd e))) b.
 
+(* A function-tag file inside a #static folder is never deleted, so once written it stays: an absent tag file and one
+   without values mean the same to Minecraft and are compared as equal THERE (and only there); the values themselves -
+   in particular an entry of this pack that should be gone - are compared exactly. *)
+Definition shielded_tag (r : rcase) (p : path) : bool :=
+  excepted (r_hdr r) p &&
+  (path_eqb p ["."; "data"; "minecraft"; "tags"; "function"; "load.json"]%string ||
+   path_eqb p ["."; "data"; "minecraft"; "tags"; "function"; "tick.json"]%string ||
+   path_eqb p ["."; "data"; "minecraft"; "tags"; "functions"; "load.json"]%string ||
+   path_eqb p ["."; "data"; "minecraft"; "tags"; "functions"; "tick.json"]%string).
+Definition file_cmp (r : rcase) (l : list (path * node)) (p : path) : option node :=
+  match file_in l p with
+  | None => if shielded_tag r p then Some (NFile (Tag [])) else None
+  | x => x
+  end.
+
+(* strictly inside data/<o> for a namespace o of an earlier build that this build does not delete *)
+Definition in_prev (r : rcase) (p : path) : bool :=
+  existsb (fun o => is_prefix (ov_dir o) (removelast p)) (r_prev r) && negb (inside (r_cfg r) (r_hdr r) p).
+
 Definition rcode (r : rcase) : nat :=
   (if r_refused r
    then (if same_nodes (r_mid r) (r_rec r) then 0 else 1)
-   else (if forallb (fun p => negb (owned r p) || onode_eqb (file_in (r_rec r) p) (file_in (r_oracle r) p))
+   else (if forallb (fun p => negb (owned r p) || onode_eqb (file_cmp r (r_rec r) p) (file_cmp r (r_oracle r) p))
                     (map fst (r_rec r) ++ map fst (r_oracle r)) then 0 else 2)) +
-  (if forallb (fun p => negb (excepted (r_hdr r) p) ||
+  (* #static content is unchanged by the interrupted build and by the re-run, except where the project itself writes
+     (a static that contains generated files: `#static "../minecraft"` holds the function tags) *)
+  (if forallb (fun p => negb (excepted (r_hdr r) p) || existsb (path_eqb p) (created (r_trace r)) || shielded_tag r p ||
                         (onode_eqb (assoc_path p (r_pre r)) (assoc_path p (r_mid r)) &&
                          onode_eqb (assoc_path p (r_pre r)) (assoc_path p (r_rec r))))
-              (map fst (r_pre r) ++ map fst (r_mid r) ++ map fst (r_rec r)) then 0 else 4).
+              (map fst (r_pre r) ++ map fst (r_mid r) ++ map fst (r_rec r)) then 0 else 4) +
+  (* nothing of an earlier build survives in a namespace folder that build overrode (C11_dropped_override_refuted) *)
+  (if r_refused r then 0
+   else if forallb (fun p => negb (in_prev r p) || onode_eqb (file_in (r_rec r) p) (file_in (r_oracle r) p))
+                   (map fst (r_rec r) ++ map fst (r_oracle r)) then 0 else 8).
 
 Definition rcodes (l : list rcase) : list nat := map rcode l.
